@@ -434,4 +434,38 @@ MUTANTS = [
     Mutant("codon-radix-order", CODON, "for n in (2, 1, 0):\n            val = _radix**n", "for n in (0, 1, 2):\n            val = _radix**n", "R1.codon-radix"),
     Mutant("repair-fuse", KMER, "if np.any(codes > len(self._base_alph)):", "if np.any(codes >= len(self._base_alph)):",
            "R2.range-guard-polarity", "KmerAlphabet.fuse", kind="repair"),
+    # --- one seeded fault per remaining rule ---------------------------------
+    Mutant("unamb-order-swapped", TYPES, 'alphabet_unamb = LetterAlphabet(["A", "C", "G", "T"])', 'alphabet_unamb = LetterAlphabet(["A", "C", "T", "G"])',
+           "R1.alphabet-order"),
+    Mutant("amb-alphabet-drops-n", TYPES, '"K", "H", "B", "V", "D", "N"]', '"K", "H", "B", "V", "D"]', "R1.alphabet-order"),
+    Mutant("compl-v-not-involutive", TYPES, '        "V": "B",\n', '        "V": "D",\n', "R1.complement-involution"),
+    Mutant("compl-mapper-over-unamb", TYPES, "    for _symbol in alphabet_amb.get_symbols():\n", "    for _symbol in alphabet_unamb.get_symbols():\n",
+           "R1.complement-mapper"),
+    Mutant("compl-mapper-identity", TYPES, "        _compl_symbols.append(compl_symbol_dict[_symbol])\n", "        _compl_symbols.append(_symbol)\n",
+           "R1.complement-mapper"),
+    Mutant("dict-1to3-drops-x", TYPES, '        "X": "UNK",\n', "", "R1.letter-table-total"),
+    Mutant("dict-3to1-not-inverted", TYPES, "        _dict_3to1[_value] = _key\n", "        _dict_3to1[_key] = _value\n", "R1.letter-table-inverse"),
+    Mutant("codec-table-128", CODEC, "    cdef uint8 sym_to_code[256]\n", "    cdef uint8 sym_to_code[128]\n", "R4.table-size"),
+    Mutant("codec-symbols-signed-char", CODEC, "                 const unsigned char[:] symbols not None):", "                 const char[:] symbols not None):",
+           "R4.table-index-is-byte"),
+    Mutant("codec-table-filled-with-zero", CODEC, "    sym_to_code[:] = [illegal_code] * 256\n", "    sym_to_code[:] = [0] * 256\n", "R4.sentinel"),
+    Mutant("codec-sentinel-255", CODEC, "    cdef uint8 illegal_code = alphabet.shape[0]\n", "    cdef uint8 illegal_code = 255\n", "R4.sentinel"),
+    Mutant("codec-decode-read-before-guard", CODEC,
+           "        symbol_code = code[i]\n        if symbol_code >= alphabet_length:\n            # Local import to avoid circular imports\n            from .alphabet import AlphabetError\n            raise AlphabetError(f\"'{symbol_code:d}' is not a valid code\")\n        symbols_view[i] = alphabet[symbol_code]\n",
+           "        symbol_code = code[i]\n        symbols_view[i] = alphabet[symbol_code]\n        if symbol_code >= alphabet_length:\n            # Local import to avoid circular imports\n            from .alphabet import AlphabetError\n            raise AlphabetError(f\"'{symbol_code:d}' is not a valid code\")\n",
+           "R4.decode-guarded"),
+    Mutant("codec-decode-guard-dropped", CODEC,
+           "        if symbol_code >= alphabet_length:\n            # Local import to avoid circular imports\n            from .alphabet import AlphabetError\n            raise AlphabetError(f\"'{symbol_code:d}' is not a valid code\")\n        symbols_view[i] = alphabet[symbol_code]\n",
+           "        symbols_view[i] = alphabet[symbol_code]\n",
+           "R4.decode-guarded"),
+    Mutant("alphabet-decode-indexerror", ALPH,
+           "            raise AlphabetError(f\"'{code:d}' is not a valid code\")\n        return self._symbols[code]",
+           "            raise IndexError(f\"'{code:d}' is not a valid code\")\n        return self._symbols[code]",
+           "R6.alphabet-error", "Alphabet.decode"),
+    Mutant("alphabet-encode-wrong-except", ALPH, "        except KeyError:\n            raise AlphabetError(f\"Symbol {repr(symbol)} is not in the alphabet\")",
+           "        except IndexError:\n            raise AlphabetError(f\"Symbol {repr(symbol)} is not in the alphabet\")",
+           "R6.alphabet-error", "Alphabet.encode"),
+    Mutant("alphabet-decode-no-negative-test", ALPH, "        if code < 0 or code >= len(self._symbols):\n            raise AlphabetError(f\"'{code:d}' is not a valid code\")\n        return self._symbols[code]",
+           "        if code >= len(self._symbols):\n            raise AlphabetError(f\"'{code:d}' is not a valid code\")\n        return self._symbols[code]",
+           "R6.negative-code"),
 ]
